@@ -42,6 +42,9 @@ TraceOp ==
      Rec(Cl(e.op \in {"package", "named"} => e.hash = e.fresh, "C11.out_equals_fresh")
          \cup Cl(e.nchanged = 0, "C11.config_unchanged")
          \cup Cl(e.get_changed = <<>>, "C11.effective_settings_unchanged")
+         \* C13 on the same observation: what Get yields for a format is base + that format's block - whatever has been
+         \* validated, named or packaged for ANY format before
+         \cup Cl(e.get_changed = <<>>, "C13.effective_settings_independent_of_what_was_processed_before")
          \* C15: asking for the conventional file name does not alter the package subsequently built from the same Info
          \cup Cl(e.op = "named" => e.hash = e.fresh, "C15.asking_for_name_does_not_alter_package"),
          {}, {})
